@@ -37,6 +37,10 @@ def point_loop(fn):
     return best
 
 
+# the three point maps are decided as polynomial identities (check_affine_algebra, check_element_maps); comparing their spelling is evidence only
+ADVISORY = [('R-CLONE', r'^point-map/')]
+
+
 def check_point_maps(ctx, db):
     pt, ft, rt = db.fn('gdstk::Polygon::transform'), db.fn('gdstk::FlexPath::transform'), db.fn('gdstk::Reference::repeat_and_transform')
     for f in (pt, ft, rt):
@@ -626,7 +630,7 @@ def run(ctx):
 
 
 MANIFEST = dict(
-    text='Decides, as polynomial identities, that the element transforms are the documented affine maps: every transforming method of Polygon and FlexPath (transform, translate, scale, rotate, mirror) is executed once on a symbolic generic element of each member array (sa/genelem.py: cursors, indices and count-down loops all denote the same generic element), for every valuation of x_reflection and scale_width; the value stored into vertices / spine points is exactly t + m R(rotation) diag(1, +-1) p, p + v, c + s(p - c), c + R(angle)(p - c) or the reflection across p0p1, the (half width, offset) pairs become (w * (scale_width ? |m| : 1), d * +-|m|) (sign flips exactly under reflection; mirror gives (w, -d)), end extensions and bend radius scale by |m|, every length-valued field of the element record (from the record layout) is rewritten and no other member is written; the per-point map of Reference::repeat_and_transform is t + offset + m R diag(1, +-1) p; Reference::transform / Label::transform store fields whose placement is exactly T o P for all four reflection combinations, are clones of each other and capture the old origin before overwriting it; by abstract interpretation over the sign domain for every sign/boolean valuation RobustPath::simple_scale/mirror/x_reflection keep or flip the sign of offset_scale as required and keep width_scale positive; RobustPath::transform is scale; reflect-if; rotate; translate and its matrix methods compose exactly; Repetition::transform depends on every non-neutral parameter for every kind and valuation and is, as a polynomial identity on all 40 (kind, valuation) paths, m R(rotation) diag(1, +-1). Numerical agreement of outlines is not decided. Reference::transform and Label::transform are interpreted for the four reflection combinations at one generic point: the stored placement is T o P.',
+    text='Decides, as polynomial identities, that the element transforms are the documented affine maps: every transforming method of Polygon and FlexPath (transform, translate, scale, rotate, mirror) is executed once on a symbolic generic element of each member array (sa/genelem.py: cursors, indices and count-down loops all denote the same generic element), for every valuation of x_reflection and scale_width; the value stored into vertices / spine points is exactly t + m R(rotation) diag(1, +-1) p, p + v, c + s(p - c), c + R(angle)(p - c) or the reflection across p0p1, the (half width, offset) pairs become (w * (scale_width ? |m| : 1), d * +-|m|) (sign flips exactly under reflection; mirror gives (w, -d)), end extensions and bend radius scale by |m|, every length-valued field of the element record (from the record layout) is rewritten and no other member is written; the per-point map of Reference::repeat_and_transform is t + offset + m R diag(1, +-1) p; Reference::transform / Label::transform store fields whose placement is exactly T o P for all four reflection combinations, are clones of each other and capture the old origin before overwriting it; by abstract interpretation over the sign domain for every sign/boolean valuation RobustPath::simple_scale/mirror/x_reflection keep or flip the sign of offset_scale as required and keep width_scale positive; RobustPath::transform is scale; reflect-if; rotate; translate and its matrix methods compose exactly; Repetition::transform depends on every non-neutral parameter for every kind and valuation and is, as a polynomial identity on all 40 (kind, valuation) paths, m R(rotation) diag(1, +-1). Numerical agreement of outlines is not decided. Reference::transform and Label::transform are interpreted for the four reflection combinations at one generic point: the stored placement is T o P. The spelling comparison of the three point maps is advisory (they are decided as polynomial identities).',
     note='Trusted: clang front end, gx, sa rules (sa/signs.py interprets literals, unary minus, fabs, products, ternaries, Vec2 initialisers and component stores; anything else evaluates to unknown and fails the obligation). Reference strings for the origin map were confirmed by reading.',
     technique='generic-element symbolic execution of the transforming methods into polynomial identities with trigonometric expansion (sa/genelem.py, sa/symdiff.py) + clone family for the two placement transforms + sign-domain abstract interpretation with exhaustive parameter-sign enumeration + predicate-atom path enumeration + interpretation of the placement transforms per reflection combination (sa/minieval)',
     design='§4 C10')
